@@ -16,7 +16,7 @@
 From Coq Require Import List NArith Bool.
 From SK Require Import lib.Tok lib.LGraph lib.Mono lib.Reach model.C07_Model model.C07_MCCS
   proof.C07_Spec proof.C07_History proof.C07_Filters proof.C07_Main proof.C07_WL proof.C07_Relabel proof.C07_Final proof.C07_Extra proof.C07_Final2
-  proof.C07_Entry proof.C07_MCCS.
+  proof.C07_Entry proof.C07_MCCS proof.C07_Sym.
 Import ListNotations.
 
 (** the premises are satisfiable, and the instances the correspondence run evaluates ([run] = [run_from has_mono (monos_g true)])
@@ -331,6 +331,42 @@ Theorem C07_engine_ctor :
   forall r, (r_backend_lower r = s_nx -> eng_ctor r = inl (ctor_fields r)) /\ (r_backend_lower r <> s_nx -> eng_ctor r = inr 3%N).
 Proof. exact eng_ctor_spec. Qed.
 Print Assumptions C07_engine_ctor.
+
+(** (2, helpers) invariance under relabelling and symmetry beyond the engine: every boolean subgraph entry point (raw options) gives
+    the same answer when the child or the parent is renamed by any r injective on its nodes ... *)
+Theorem C07_entry_relabel_invariant :
+  forall vf2b, vf2b_contract vf2b ->
+  forall fn o r child parent, gwf child -> gwf parent -> entry_ok fn o ->
+    (inj_on r (node_ids child) -> sub_entry vf2b fn o (grelabel r child) parent = sub_entry vf2b fn o child parent) /\
+    (inj_on r (node_ids parent) -> sub_entry vf2b fn o child (grelabel r parent) = sub_entry vf2b fn o child parent).
+Proof. exact entry_relabel. Qed.
+Print Assumptions C07_entry_relabel_invariant.
+
+(** ... graph_isomorphism (with the default matchers and without matchers) and the verdict of find_graph_isomorphism are symmetric in
+    their two arguments (their matchers are equalities; no hcount orientation as in the engine) ... *)
+Theorem C07_helpers_symmetric :
+  forall vf2b, vf2b_contract vf2b ->
+  forall g1 g2, gwf g1 -> gwf g2 ->
+    (forall a b d, giso vf2b a b d g1 g2 = giso vf2b a b d g2 g1) /\
+    giso0 vf2b g1 g2 = giso0 vf2b g2 g1 /\
+    (forall ud fast a b d, fgi vf2b ud fast a b d g1 g2 = fgi vf2b ud fast a b d g2 g1).
+Proof. exact helpers_symmetric. Qed.
+Print Assumptions C07_helpers_symmetric.
+
+(** ... and invariant under an injective renaming of either argument *)
+Theorem C07_helpers_relabel_invariant :
+  forall vf2b, vf2b_contract vf2b ->
+  forall g1 g2 r, gwf g1 -> gwf g2 ->
+    (inj_on r (node_ids g1) ->
+       (forall a b d, giso vf2b a b d (grelabel r g1) g2 = giso vf2b a b d g1 g2) /\
+       giso0 vf2b (grelabel r g1) g2 = giso0 vf2b g1 g2 /\
+       (forall ud fast a b d, fgi vf2b ud fast a b d (grelabel r g1) g2 = fgi vf2b ud fast a b d g1 g2)) /\
+    (inj_on r (node_ids g2) ->
+       (forall a b d, giso vf2b a b d g1 (grelabel r g2) = giso vf2b a b d g1 g2) /\
+       giso0 vf2b g1 (grelabel r g2) = giso0 vf2b g1 g2 /\
+       (forall ud fast a b d, fgi vf2b ud fast a b d g1 (grelabel r g2) = fgi vf2b ud fast a b d g1 g2)).
+Proof. exact helpers_relabel. Qed.
+Print Assumptions C07_helpers_relabel_invariant.
 
 (** ---------------------------------------------------------------- round 5: the common-subgraph helpers of graph_morphism.py
     (outside the clauses of the property text; modelled, compared and proved because they are built from the same matcher calls)
